@@ -2,8 +2,8 @@ package main
 
 import (
 	"fmt"
-	"os"
 	"go/types"
+	"os"
 	"reflect"
 	"strings"
 
@@ -12,9 +12,9 @@ import (
 
 func init() {
 	register(&propInfo{
-		ID:     "C07",
-		Run:    runC07,
-		MinObl: 40,
+		ID:          "C07",
+		Run:         runC07,
+		MinObl:      40,
 		Explanation: "Decided: R1 expiry guards — every module implementation of Validate{AccessToken,AuthorizeCode,RefreshToken,DeviceCode,UserCode} reaches a success exit only with ¬(IsZero(exp) ∧ Before(RequestedAt+lifespan_K, now)) ∧ ¬(¬IsZero(exp) ∧ Before(exp, now)) where exp = GetExpiresAt(session, K) for the token type K the method is named for and lifespan_K its configuration getter (refresh: a zero expiry means unlimited); the expiry exit derives from ErrTokenExpired / ErrDeviceExpiredToken; JWT: the JWT access-token validator returns Claims.Valid() after a successful decode, MapClaims.Valid returns nil only if VerifyExpiresAt/IssuedAt/NotBefore(now) held, and the small comparators return now<=exp, now>=iat, now>=nbf; R2 writer/reader agreement: every token type with a SetExpiresAt(K, ·) writer in the module has a reader in this table that passed (par_context: the authorization endpoint's PAR continuation); R3 lifespan keys: every SetExpiresAt(K, now+d) with d from GetEffectiveLifespan(client, G, K', fallback) has K==K', fallback = the configuration getter of K and G = the grant constant of the enclosing handler type (frozen table); refresh-token writers are guarded by d > -1; in the per-client lifespan selector each of the 12 ClientLifespanConfig fields is returned only under the (grant, token type) pair it is declared for; R4 advertised lifetime: every SetExpiresIn / expires_in parameter derives from GetExpiresAt(session, access_token) − now or the same effective lifespan, the JWT exp claim is GetExpiresAt(session, token type), device expires_in derives from the stored user_code expiry, PAR expires_in from the stored expiry's lifespan; R5 JWT assertions: client assertions and JWT-bearer grants succeed only with Claims.Valid()==nil / the exp claim checked against now. NOT decided: numeric agreement of expires_in with wall-clock time, boundary seconds, what now is.",
 	})
 }
@@ -218,7 +218,9 @@ func c07JWT(c *Ctx) {
 						ok, w, why = false, p, "nil is returned although "+m[1:]+" did not hold"
 						continue
 					}
-					if !e.Arg(0).Mentions(func(s *Term) bool { return s.Op == "global" && strings.HasSuffix(s.Name, "TimeFunc") || s.IsCall("time.Now") }) {
+					if !e.Arg(0).Mentions(func(s *Term) bool {
+						return s.Op == "global" && strings.HasSuffix(s.Name, "TimeFunc") || s.IsCall("time.Now")
+					}) {
 						ok, w, why = false, p, m[1:]+" is not evaluated against the current time"
 					}
 				}
@@ -246,16 +248,25 @@ func c07JWT(c *Ctx) {
 			if p.Eq(x, tInt(0)) {
 				continue // absent claim: governed by 'required'
 			}
-			fs := decompose(p.Rets[0], true)
 			var want Fact
 			if cmp.want == "now<=x" {
 				want = Fact{atomLT(x, now), false}
 			} else {
 				want = Fact{atomLT(now, x), false}
 			}
-			if len(fs) == 1 && fs[0].Atom.Key() == want.Atom.Key() && fs[0].Pol == want.Pol {
-				ok = true
-			} else {
+			// boolean results are split into a true and a false exit (emitSplit)
+			switch p.Rets[0].Key() {
+			case tTrue.Key():
+				if p.Holds(want.Atom, want.Pol) {
+					ok = true
+				} else {
+					bad = "true is returned without " + want.String()
+				}
+			case tFalse.Key():
+				if !p.Holds(want.Atom, !want.Pol) {
+					bad = "false is returned although the comparison is not known to fail"
+				}
+			default:
 				bad = "returns " + p.Rets[0].Pretty()
 			}
 		}
